@@ -25,6 +25,7 @@ type vRun struct {
 	sig     string // canonical w:rPr
 	breaks  int
 	drawing int
+	embeds  []string // r:embed ids of the pictures in this run
 }
 
 type vPara struct {
@@ -51,6 +52,7 @@ type vDoc struct {
 	hdrText    map[string]string
 	parts      map[string][]byte
 	wellFormed bool
+	relTarget  map[string]string // main part relationship id -> part name
 }
 
 var tokenRe = regexp.MustCompile(`⟦[^⟧]*⟧`)
@@ -59,6 +61,14 @@ func viewDoc(raw []byte) *vDoc {
 	v := &vDoc{byToken: map[string]*vPara{}, hdrText: map[string]string{}}
 	p := opc.Read(raw)
 	v.parts = p.Parts
+	v.relTarget = map[string]string{}
+	if rels, ok := p.Rels("word/_rels/document.xml.rels"); ok {
+		for _, rl := range rels {
+			if !rl.External() {
+				v.relTarget[rl.ID] = opc.ResolveTarget("word/document.xml", rl.Target)
+			}
+		}
+	}
 	root, pr := p.Tree("word/document.xml")
 	if root == nil || len(pr) > 0 {
 		return v
@@ -91,6 +101,11 @@ func viewDoc(raw []byte) *vDoc {
 					vr.breaks++
 				case k.Is(opc.NsW, "drawing"):
 					vr.drawing++
+					for _, bl := range k.Find(opc.NsA, "blip") {
+						if id, ok := bl.Attr(opc.NsR, "embed"); ok {
+							vr.embeds = append(vr.embeds, id)
+						}
+					}
 				case k.Is(opc.NsW, "tab"):
 					vr.text += "\t"
 				}
@@ -163,6 +178,35 @@ func viewDoc(raw []byte) *vDoc {
 		}
 	}
 	return v
+}
+
+// stream lists what a reader meets in the given paragraphs, in order: text (white space removed, adjacent pieces joined) and
+// pictures (named through pic: bytes -> name; a picture that shows none of the supplied bytes is "?").
+func (v *vDoc) stream(paras []*vPara, pic func([]byte) string) []string {
+	var out []string
+	text := func(t string) {
+		t = strings.Join(strings.Fields(t), "")
+		if t == "" {
+			return
+		}
+		if n := len(out); n > 0 && strings.HasPrefix(out[n-1], "T:") {
+			out[n-1] += t
+			return
+		}
+		out = append(out, "T:"+t)
+	}
+	for _, p := range paras {
+		for _, r := range p.runs {
+			text(r.text)
+			for _, id := range r.embeds {
+				out = append(out, "P:"+pic(v.parts[v.relTarget[id]]))
+			}
+			if r.drawing > len(r.embeds) {
+				out = append(out, "P:?")
+			}
+		}
+	}
+	return out
 }
 
 // chars flattens a paragraph into (rune, run signature) pairs.
@@ -285,6 +329,8 @@ type c18Model struct {
 	hdr        string // header text pattern (with placeholder) or ""
 	hdrSplit   bool
 	image      bool
+	pics       map[string][]byte // image placeholder name -> picture supplied for it
+	imgCell    bool              // a table right after the image paragraphs holds an image placeholder in a cell
 }
 
 func c18LoopLit(r *rng.R) string {
@@ -358,6 +404,14 @@ func c18Build(c *core.Ctx, r *rng.R) (*document.Document, *c18Model) {
 		if r.Chance(1, 6) {
 			bp.AddPageBreak()
 			p.extra = "break"
+		} else if len(bp.Runs) > 0 && r.Chance(1, 8) {
+			// a run that carries its text and a break (what Word writes for a line break at the end of a formatted stretch)
+			k := len(bp.Runs) - 1
+			if !p.split {
+				k = r.Intn(len(bp.Runs)) // (a break between the pieces of one placeholder has no defined place afterwards)
+			}
+			bp.Runs[k].Break = &document.Break{Type: []string{"page", ""}[r.Intn(2)]}
+			p.extra = "break-in-text-run"
 		}
 		m.paras = append(m.paras, p)
 		if r.Chance(1, 5) {
@@ -437,8 +491,46 @@ func c18Build(c *core.Ctx, r *rng.R) (*document.Document, *c18Model) {
 		}
 	}
 	if r.Chance(1, 3) {
+		// image placeholders: alone in their paragraph or with text around them, one or two per paragraph, several paragraphs in a
+		// row or with other paragraphs in between, and in a table cell right behind such a paragraph; every name has its own picture
 		m.image = true
-		d.AddParagraph("{{#image pic}}")
+		m.pics = map[string][]byte{}
+		names := []string{"pic", "pic2", "pic3"}
+		ph := func() string {
+			n := names[r.Intn(len(names))]
+			if m.pics[n] == nil {
+				m.pics[n] = gen.MakeImage([]string{"png", "jpeg", "gif"}[r.Intn(3)], 880000+c.Case*8+len(m.pics), r.Range(3, 6), r.Range(3, 6)).Data
+			}
+			return "{{#image " + n + "}}"
+		}
+		for i, n := 0, r.Range(1, 4); i < n; i++ {
+			serial++
+			txt := ph()
+			switch r.Intn(6) {
+			case 0:
+				txt = fmt.Sprintf("⟦i%d⟧ Logo: ", serial) + txt + " after"
+			case 1:
+				txt = fmt.Sprintf("⟦i%d⟧ before ", serial) + txt
+			case 2:
+				txt = txt + fmt.Sprintf(" ⟦i%d⟧ behind", serial)
+			case 3:
+				txt = txt + " and " + ph()
+			}
+			d.AddParagraph(txt)
+			if r.Chance(1, 3) {
+				p := newPara("body")
+				var bp *document.Paragraph
+				emit(p, func(t string, f *document.TextFormat) { bp = d.AddFormattedParagraph(t, f) }, func(t string, f *document.TextFormat) { bp.AddFormattedText(t, f) })
+				m.paras = append(m.paras, p)
+			}
+		}
+		if r.Chance(1, 3) {
+			if t, err := d.AddTable(&document.TableConfig{Rows: 1, Cols: 2, Width: 5000}); err == nil && t != nil {
+				m.imgCell = true
+				t.SetCellText(0, 0, "⟦imgtbl⟧ picture:")
+				t.SetCellText(0, 1, ph())
+			}
+		}
 		p := newPara("body")
 		var bp *document.Paragraph
 		emit(p, func(t string, f *document.TextFormat) { bp = d.AddFormattedParagraph(t, f) }, func(t string, f *document.TextFormat) { bp.AddFormattedText(t, f) })
@@ -539,11 +631,8 @@ func c18Case(c *core.Ctx) *core.Result {
 		}
 		data.SetList("rows", items)
 	}
-	var picBytes []byte
-	if m.image {
-		im := gen.MakeImage("png", 880000+c.Case, 5, 4)
-		picBytes = im.Data
-		data.SetImageFromData("pic", im.Data, nil)
+	for n, b := range m.pics {
+		data.SetImageFromData(n, b, nil)
 	}
 	var out *document.Document
 	if cg := core.Catch(func() { out, err = eng.RenderTemplateToDocument("t", data) }); cg != nil {
@@ -665,7 +754,23 @@ func c18Case(c *core.Ctx) *core.Result {
 	}
 	// 2. body order and section settings
 	wantKinds := append([]string{}, bv.bodyKinds...)
-	if fmt.Sprint(wantKinds) != fmt.Sprint(ov.bodyKinds) {
+	gotKinds := ov.bodyKinds
+	if m.image {
+		// a picture may get a paragraph of its own and cut the text around its placeholder into further paragraphs: runs of
+		// paragraphs count as one (their content is compared as a stream below)
+		squeeze := func(in []string) []string {
+			var out []string
+			for _, k := range in {
+				if k == "p" && len(out) > 0 && out[len(out)-1] == "p" {
+					continue
+				}
+				out = append(out, k)
+			}
+			return out
+		}
+		wantKinds, gotKinds = squeeze(wantKinds), squeeze(gotKinds)
+	}
+	if fmt.Sprint(wantKinds) != fmt.Sprint(gotKinds) {
 		res.Add("body/element-sequence-changed", fmt.Sprintf("body children %v became %v", bv.bodyKinds, ov.bodyKinds), note)
 	}
 	if bv.sectPr != ov.sectPr {
@@ -748,26 +853,99 @@ func c18Case(c *core.Ctx) *core.Result {
 			res.Add(cls+"/text-differs", fmt.Sprintf("%s: text %q, expected %q", name, ot, want), note)
 		}
 	}
-	// 5. image placeholder
+	// 5. image placeholders: what a reader meets in the body paragraphs, in order - text and pictures - is the base document's
+	// with every variable replaced by its value and every image placeholder by its picture (how the pieces are cut into
+	// paragraphs and runs is free)
 	if m.image {
-		found := false
-		for _, b := range ov.parts {
-			if bytes.Equal(b, picBytes) {
-				found = true
+		picName := func(b []byte) string {
+			for n, pb := range m.pics {
+				if b != nil && bytes.Equal(b, pb) {
+					return n
+				}
+			}
+			return "?"
+		}
+		bodyParas := func(v *vDoc) []*vPara {
+			var out []*vPara
+			for _, p := range v.paras {
+				if p.loc == "body" {
+					out = append(out, p)
+				}
+			}
+			return out
+		}
+		var want []string
+		addText := func(t string) {
+			t = strings.Join(strings.Fields(t), "")
+			if t == "" {
+				return
+			}
+			if n := len(want); n > 0 && strings.HasPrefix(want[n-1], "T:") {
+				want[n-1] += t
+				return
+			}
+			want = append(want, "T:"+t)
+		}
+		dirRe := regexp.MustCompile(`\{\{#image (\w+)\}\}|\{\{(\w+)\}\}`)
+		expect := func(paras []*vPara) {
+			for _, bp := range paras {
+				rest := bp.text()
+				for {
+					loc := dirRe.FindStringSubmatchIndex(rest)
+					if loc == nil {
+						addText(rest)
+						break
+					}
+					addText(rest[:loc[0]])
+					if loc[2] >= 0 {
+						want = append(want, "P:"+rest[loc[2]:loc[3]])
+					} else if v, ok := m.vars[rest[loc[4]:loc[5]]]; ok {
+						addText(xmlCarried(v))
+					} else {
+						addText(rest[loc[0]:loc[1]])
+					}
+					rest = rest[loc[1]:]
+				}
 			}
 		}
-		pics := 0
-		for _, p := range ov.paras {
-			for _, rr := range p.runs {
-				pics += rr.drawing
+		expect(bodyParas(bv))
+		got := ov.stream(bodyParas(ov), picName)
+		res.Count("body_streams_compared(text+pictures)", 1)
+		if strings.Join(want, " ") != strings.Join(got, " ") {
+			kind := "text-or-order"
+			switch {
+			case strings.Contains(strings.Join(got, " "), "{{#image"):
+				kind = "placeholder-left-in-text"
+			case strings.Count(strings.Join(got, " "), "P:") != strings.Count(strings.Join(want, " "), "P:"):
+				kind = "picture-count"
 			}
+			res.Add("image-placeholder/body/"+kind, fmt.Sprintf("the body reads %v, expected %v", got, want), note)
 		}
-		if !found || pics == 0 {
-			res.Add("image-placeholder/not-replaced-by-picture", fmt.Sprintf("image placeholder with data: media stored=%v, pictures in document=%d", found, pics), note)
-		}
-		for _, p := range ov.paras {
-			if strings.Contains(p.text(), "{{#image") || strings.Contains(p.text(), "[IMAGE") {
-				res.Add("image-placeholder/marker-left-in-text", "the image placeholder is still visible as text: "+p.text(), note)
+		if m.imgCell {
+			var bc, oc []*vPara
+			rowOf := func(v *vDoc) string {
+				if p := v.byToken["⟦imgtbl⟧"]; p != nil {
+					return p.row[:strings.LastIndex(p.row, "/")]
+				}
+				return "\x00"
+			}
+			br, or := rowOf(bv), rowOf(ov)
+			for _, p := range bv.paras {
+				if strings.HasPrefix(p.row, br+"/") {
+					bc = append(bc, p)
+				}
+			}
+			for _, p := range ov.paras {
+				if strings.HasPrefix(p.row, or+"/") {
+					oc = append(oc, p)
+				}
+			}
+			want = nil
+			expect(bc)
+			got := ov.stream(oc, picName)
+			res.Count("cell_streams_compared(text+pictures)", 1)
+			if strings.Join(want, " ") != strings.Join(got, " ") {
+				res.Add("image-placeholder/cell/not-replaced-by-picture", fmt.Sprintf("the table row reads %v, expected %v", got, want), note)
 			}
 		}
 	}
@@ -824,8 +1002,8 @@ func init() {
 	core.Register(&core.Check{
 		ID:    "C18",
 		Level: "exploration",
-		Rule: "base documents built through the API: body paragraphs, table cells and nested-table cells whose text (unique token + literals incl. single braces and CJK + 0-3 placeholders) is cut into 1-4 runs of differing formatting, two thirds of the multi-run paragraphs with a run boundary forced inside a placeholder, one boundary in five holding an additional run without text (formatting only; a zero-length piece, also inside a placeholder); paragraph properties, page-break runs, a loop table (header row, {{#each}} row, 0-2 fixed rows, 0-3 items), an image placeholder, header and footer with one or two placeholders each (every second case with a header: the package is rewritten so that header and/or footer placeholders are split over two runs at a random offset, also between the two opening braces, then opened), page settings; data for about two thirds of the names incl. XML metacharacters, empty and directive-like values. " +
-			"Oracle on the saved rendered document, read independently and compared with the saved base document: per paragraph the text after reference substitution, the run formatting of every literal character (value characters are free), w:pPr, w:br count; body child sequence, w:sectPr, loop table rows, header/footer text, picture for the image placeholder, untouched parts byte/canonically equal. Non-trivial: >=2 paragraphs compared; distinct = paragraph texts + data.",
+		Rule: "base documents built through the API: body paragraphs, table cells and nested-table cells whose text (unique token + literals incl. single braces and CJK + 0-3 placeholders) is cut into 1-4 runs of differing formatting, two thirds of the multi-run paragraphs with a run boundary forced inside a placeholder, one boundary in five holding an additional run without text (formatting only; a zero-length piece, also inside a placeholder); paragraph properties, page-break runs, text runs that carry a break themselves, a loop table (header row, {{#each}} row, 0-2 fixed rows, 0-3 items), image placeholders (three names with a picture each; alone in a paragraph or with text before/after, two in one paragraph, several paragraphs in a row, in a table cell directly behind), header and footer with one or two placeholders each (every second case with a header: the package is rewritten so that header and/or footer placeholders are split over two runs at a random offset, also between the two opening braces, then opened), page settings; data for about two thirds of the names incl. XML metacharacters, empty and directive-like values. " +
+			"Oracle on the saved rendered document, read independently and compared with the saved base document: per paragraph the text after reference substitution, the run formatting of every literal character (value characters are free), w:pPr, w:br count; body child sequence, w:sectPr, loop table rows, header/footer text, the stream of text and pictures (identified by their bytes) a reader meets in the body paragraphs and in the picture row equals the base document's with placeholders replaced, untouched parts byte/canonically equal. Non-trivial: >=2 paragraphs compared; distinct = paragraph texts + data.",
 		Cases:         func(t string) int { return tierN(t, 3000, 120000) },
 		Run:           c18Case,
 		Assume:        []string{"conditionals and paragraph-level loops inside document templates are not generated (the statement names placeholders, table loops and image placeholders)", "formatting of the inserted value and the resulting run segmentation are free"},
